@@ -19,4 +19,15 @@ CLAIMS = {
             "ref": "DESIGN.md §6 C11, §4.4"},
 }
 
+CLAIMS["C09"] = {"text": "TLC visits every ordered pair of a 28/57-value universe (nil, booleans, ints, exact floats, strings, nested "
+                        "arrays, maps), checks the coherence laws of the statement on the reference operators, and emits a probe "
+                        "that applies the nine operators in both operand orders; the implementation's bit table is validated by "
+                        "TLC both against the decided reference bits and against the coherence laws themselves (so an "
+                        "incoherent implementation is rejected even where the reference is silent)."}
+CLAIMS["C16"] = {"text": "TLC enumerates every string up to 2 (quick) / 3-4 (thorough) characters over an alphabet with ASCII of both "
+                        "cases, whitespace, 2- and 4-byte characters and the HTML/URL specials, times a grid of string-filter "
+                        "calls; it checks the algebraic laws (UTF-8 preservation, never-lengthen, escape, url round trip, "
+                        "split/join, case laws) on the reference LqFilters and every case is rendered by the implementation and "
+                        "trace-validated against the reference."}
+
 NOT_CLAIMED = {}
